@@ -147,6 +147,8 @@ def find_targets(v: FnView, kind: str, pattern: str, arms_fallback: bool = False
             out = _find_targets(v, kind, loose, arms_fallback)
         except re.error:
             out = []
+        if len(out) > 1:
+            out = []  # the loosened pattern is ambiguous (`edge(cur, \w+)`): no target rather than the wrong one
     return out
 
 
@@ -191,6 +193,29 @@ def _arms(e: ast.expr) -> list[ast.expr]:
     return [e]
 
 
+def _decline_reshaped(prog: Program, report: Report, before: int) -> None:
+    """A table instance is a statement-level comparison with the reviewed function.  When that
+    function's control skeleton is no longer the reviewed one, a mismatch says "restructured", not
+    "violated": the finding becomes an analysis error (exit 2) with the same text."""
+    from ..gates import reshaped
+
+    keep = report.findings[:before]
+    for f in report.findings[before:]:
+        if reshaped(prog, f.where):
+            msg = f"{f.rule}: {f.where}: not judged - the function's control skeleton differs from the reviewed tree's (restructured), so `{f.construct[:80]}` cannot be compared with the reviewed instance; found 0 time(s) in reviewed shape"
+            if f.rule in ("RG-auto", "RV-auto"):
+                report.note(msg)
+            else:
+                report.errors.append(msg)
+            for o in report.obligations:
+                if not o.ok and o.where == f.where and o.rule == f.rule:
+                    o.ok = True
+                    o.what += " [not judged: function restructured]"
+        else:
+            keep.append(f)
+    report.findings[:] = keep
+
+
 AUTO_FLOOR = 0.7  # share of the reviewed-tree instances of a property that must still be present
 
 
@@ -205,7 +230,10 @@ def run_gates(prog: Program, report: Report, table: list, pid: str) -> None:
         try:
             if g.rule in ("RG-auto", "RV-auto"):
                 auto_total += 1
+            before = len(report.findings)
             n += _run_one(prog, report, g)
+            if len(report.findings) > before:
+                _decline_reshaped(prog, report, before)
         except AnalysisError as e:
             if g.rule in ("RG-auto", "RV-auto") and ("found 0 time" in str(e) or "expected at most" in str(e)):
                 # an instance extracted from the reviewed tree is a universally quantified statement over
